@@ -49,8 +49,9 @@ def main():
     for rid, r in rows.items():
         if r["origin"].startswith("planted"):
             res = r["result"]
+            cl = ", ".join(res["classes"]) or ("uncontrolled-source (cross-process)" if res["exit"] == 1 else "–")
             print("| `%s` | %s | %s | exit %d | %s | exit %d |" % (
-                rid, r["property"], r["expect"], res["exit"], ", ".join(res["classes"]) or "–", r["other_property_quick"]["exit"]))
+                rid, r["property"], r["expect"], res["exit"], cl, r["other_property_quick"]["exit"]))
     print()
     print("| seeded change (independent sub-agent) | property | needs, in the agent's words | when it arrived | now (quick) | reported as |")
     print("|---|---|---|---|---|---|")
@@ -59,6 +60,8 @@ def main():
         r = rows.get(d)
         now = "exit %d" % r["result"]["exit"] if r else ("caught" if m.get("detected") else "missed")
         classes = ", ".join(r["result"]["classes"]) if r else ""
+        if r and not classes and r["result"]["exit"] == 1:
+            classes = "first-call-in-process-differs"
         print("| `%s` | %s | %s | %s | %s | %s |" % (d, m["property"], short(m.get("needs_to_manifest")), FIRST.get(d, "caught"), now, classes))
 
 
